@@ -53,7 +53,8 @@ def crash_sig(interp, case):
 
 
 def bounds(tier):
-    return {"deviation_bound": 1 if tier == "quick" else 2, "blocked_depth": 4, "blocked_nest_sum": 4, "target_programs": 2 if tier == "quick" else 3}
+    return {"deviation_bound": 1 if tier == "quick" else 2, "blocked_depth": 4, "blocked_nest_sum": 4, "target_programs": 2 if tier == "quick" else 3,
+            "pairs": "inspect_frame: all targets/starts; extract(thread): targets 0-1, starts 1 and 3; extract_since: single deviations only"}
 
 
 class M(object):
@@ -563,7 +564,12 @@ def run_race(ctx, which):
                 ctx.violation({"leg": which, "target": ti, "start": start_pos, "schedule": {}}, "; ".join(problems)[:1200], vsig)
             npoints = out["npoints"]
             ctx.count("scheduling_points", npoints)
-            for sched in deviations(npoints, npos - start_pos, b["deviation_bound"], which in ("race_extract", "race_since")):
+            # pairs of deviations: for inspect_frame everywhere; for extract(thread) on the first two targets from start
+            # positions 1 and 3; extract_since stays at single deviations (bounds stated in coverage.bounds)
+            dbound = b["deviation_bound"]
+            if dbound >= 2 and (which == "race_since" or (which == "race_extract" and (ti >= 2 or start_pos not in (1, 3)))):
+                dbound = 1
+            for sched in deviations(npoints, npos - start_pos, dbound, which in ("race_extract", "race_since")):
                 idx += 1
                 if not ctx.mine(idx):
                     continue
